@@ -22,6 +22,11 @@ func init() {
 	generators["yieldstop"] = genYieldStop
 	generators["restartinflight"] = genRestartInFlight
 	generators["leftover"] = genLeftover
+	generators["slowsink"] = genSlowSink
+	generators["lateack"] = genLateAck
+	generators["sinkrace"] = genSinkRace
+	generators["priosucc"] = genPrioSucc
+	generators["healthleak"] = genHealthLeak
 }
 
 func anyLatency(r rng, h time.Duration) Latency {
@@ -1162,6 +1167,344 @@ func genLeftover(r rng, k int) *Spec {
 		t += 6*sec + 4*h
 	}
 	s.Duration = 20*h + 4*sec
+	s.Sample = sampleFor(h)
+	return s
+}
+
+// ---------------------------------------------------------------------------
+// slowsink: the user-supplied metrics sink is slow. One IncTransitions call is held
+// inside the sink while something that ends or changes the state it announces is
+// issued (a stop call, a forged record seen by the watcher, the record vanishing); the
+// sink then returns. Publications must still be in the order of the state changes and
+// the gauge must end up agreeing with IsLeader().
+// ---------------------------------------------------------------------------
+
+type ssCell struct {
+	to   string // the announced state whose publication is held
+	inst string
+	nth  int
+	race string
+}
+
+var ssCells = []ssCell{
+	{"LEADER", "i0", 1, "stop"},
+	{"LEADER", "i0", 1, "stopctx"},
+	{"LEADER", "i0", 1, "forge"},
+	{"LEADER", "i0", 1, "outdel"},
+	{"LEADER", "i1", 1, "stop"},
+	{"LEADER", "i1", 1, "stopctx"},
+	{"LEADER", "i1", 1, "forge"},
+	{"FOLLOWER", "i1", 1, "outdel"},
+	{"FOLLOWER", "i1", 1, "stop"},
+	{"FOLLOWER", "i0", 1, "stop"},   // i0's demotion (forged record) held, then stopped
+	{"FOLLOWER", "i0", 1, "outdel"}, // ... then the record vanishes: re-acquisition
+	{"STOPPED", "i0", 1, "start"},
+	{"STOPPED", "i1", 1, "start"},
+	{"STOPPED", "i0", 1, "connD"}, // a disconnect notification is handled while the stop call is inside its critical section
+	{"STOPPED", "i1", 1, "connD"},
+	{"STOPPED", "i0", 1, "connR"},
+	{"FOLLOWER", "i0", 1, "connD"},
+	{"LEADER", "i0", 1, "connD"},
+	{"LEADER", "i1", 1, "connD"},
+}
+
+// SlowSinkTotal is the size of the enumeration.
+func SlowSinkTotal() int { return len(ssCells) * 3 }
+
+func genSlowSink(r rng, k int) *Spec {
+	idx := k % SlowSinkTotal()
+	cell := ssCells[idx%len(ssCells)]
+	spin := []time.Duration{200 * time.Microsecond, 2 * ms, 10 * ms}[idx/len(ssCells)]
+	h := r.pickD(200*ms, 500*ms, 1*sec)
+	s := &Spec{TTL: time.Duration(r.pickI(3, 5)) * h, NoPreempt: true, Tags: []string{"slowsink", cell.to, cell.race}}
+	s.Lat = Latency{Min: 2 * ms, Max: 10 * ms}
+	s.Insts = mkInsts(2, 1, h)
+	s.Breaks = []BreakSpec{{Name: "ss", Client: cell.inst, Op: "metric:transition:" + cell.to, Nth: cell.nth, Phase: "sink", Armed: true}}
+	// the waitbreak has to be in place before the call is held: a call held inside a library
+	// critical section stops the virtual clock as soon as another goroutine wants that lock
+	first := cell.to == "LEADER" && cell.inst == "i0"
+	s.Actions = append(s.Actions, Action{At: 10 * ms, Kind: "start", Inst: "i0"})
+	if !first {
+		s.Actions = append(s.Actions, Action{At: 500 * ms, Kind: "start", Inst: "i1"})
+	}
+	switch {
+	case cell.to == "LEADER" && cell.inst == "i1":
+		s.Actions = append(s.Actions, Action{At: 3 * sec, Kind: "stop", Inst: "i0", Stop: &StopVariant{DeleteKey: true}})
+	case cell.to == "FOLLOWER" && cell.inst == "i0":
+		s.Actions = append(s.Actions, Action{At: 3 * sec, Kind: "output", Inst: "g0", Val: `{"id":"intruder","token":"x"}`})
+	case cell.to == "STOPPED":
+		s.Actions = append(s.Actions, Action{At: 3 * sec, Kind: "stop", Inst: cell.inst, Stop: &StopVariant{Plain: cell.inst == "i0", DeleteKey: true}})
+	}
+	// (chained: no sample of the instances is taken between the trigger and the hit)
+	s.Actions = append(s.Actions, Action{Chain: true, Kind: "waitbreak", Break: "ss", D: 12 * sec})
+	// everything from here to the release happens at one virtual instant: the held call
+	// may sit inside a library critical section
+	switch cell.race {
+	case "stop":
+		s.Actions = append(s.Actions, Action{Chain: true, Kind: "stop", Inst: cell.inst, Stop: &StopVariant{Plain: true}})
+	case "stopctx":
+		s.Actions = append(s.Actions, Action{Chain: true, Kind: "stop", Inst: cell.inst, Stop: &StopVariant{DeleteKey: true, Wait: true, Timeout: 2 * sec}})
+	case "forge":
+		s.Actions = append(s.Actions, Action{Chain: true, Kind: "output", Inst: "g0", Val: `{"id":"intruder","token":"y"}`})
+	case "outdel":
+		s.Actions = append(s.Actions, Action{Chain: true, Kind: "outdel", Inst: "g0"})
+	case "start":
+		s.Actions = append(s.Actions, Action{Chain: true, Kind: "start", Inst: cell.inst})
+	case "connD", "connR":
+		for i := range s.Insts {
+			s.Insts[i].Conn = true
+			s.Insts[i].Grace = r.pickD(0, 2*h+sec)
+		}
+		s.Tags = append(s.Tags, "connection")
+		if cell.race == "connR" {
+			// (a disconnect earlier, so that the reconnect has something to verify)
+			s.Actions = append([]Action{{At: 2 * sec, Kind: "conn", Inst: cell.inst, Val: "D"}}, s.Actions...)
+		}
+		s.Actions = append(s.Actions, Action{Chain: true, Kind: "conn", Inst: cell.inst, Val: cell.race[4:]})
+	}
+	s.Actions = append(s.Actions,
+		Action{Chain: true, Kind: "spin", D: spin},
+		Action{Chain: true, Kind: "release", Break: "ss"},
+		Action{After: ms, Kind: "waitapi", Inst: cell.inst, D: 7 * sec},
+	)
+	if first {
+		s.Actions = append(s.Actions, Action{After: 500 * ms, Kind: "start", Inst: "i1"})
+	}
+	s.Duration = 6 * sec
+	s.Sample = sampleFor(h)
+	return s
+}
+
+// ---------------------------------------------------------------------------
+// lateack: the acknowledgement of a refresh is late (but inside the heartbeat's own
+// time-out). Between the store applying that refresh and the instance consuming its
+// answer the record changes hands (forged by the outside party, deleted, expired) and a
+// validation is called whose read fails transiently or succeeds; the late answer is
+// consumed before, while or after the read is under way.
+// ---------------------------------------------------------------------------
+
+// LateAckTotal is the size of the enumeration.
+func LateAckTotal() int { return 4 * 4 * 2 * 3 * 2 }
+
+func genLateAck(r rng, k int) *Spec {
+	idx := k % LateAckTotal()
+	usurp := []string{"forge", "forge-own-id", "delete", "expire"}[idx%4]
+	idx /= 4
+	errk := []string{"timeout", "noresponders", "connclosed", "io"}[idx%4]
+	idx /= 4
+	orDemote := idx%2 == 1
+	idx /= 2
+	rel := []time.Duration{5 * ms, 30 * ms, 120 * ms}[idx%3] // the read hangs for 60 ms
+	idx /= 3
+	readFails := idx%2 == 0
+	h := r.pickD(500*ms, 1*sec, 2*sec)
+	s := &Spec{TTL: 3 * h, NoPreempt: true, Tags: []string{"lateack", usurp, errk}}
+	s.Lat = Latency{Min: 2 * ms, Max: 10 * ms}
+	s.Insts = mkInsts(1+r.IntN(2), 1, h)
+	s.Breaks = []BreakSpec{{Name: "la", Client: "i0", Op: "Update", Nth: 2 + r.IntN(3), Phase: "resp", Armed: true}}
+	s.Actions = append(s.Actions, Action{At: 10 * ms, Kind: "start", Inst: "i0"})
+	if len(s.Insts) > 1 {
+		s.Actions = append(s.Actions, Action{At: 300 * ms, Kind: "start", Inst: "i1"})
+	}
+	s.Actions = append(s.Actions, Action{At: 400 * ms, Kind: "waitbreak", Break: "la", D: 30 * sec})
+	switch usurp {
+	case "forge":
+		s.Actions = append(s.Actions, Action{After: ms, Kind: "output", Inst: "g0", Val: `{"id":"intruder","token":"z"}`})
+	case "forge-own-id":
+		s.Actions = append(s.Actions, Action{After: ms, Kind: "output", Inst: "g0", Val: `{"id":"i0","token":"not-this-term"}`})
+	case "delete":
+		s.Actions = append(s.Actions, Action{After: ms, Kind: "outdel", Inst: "g0"})
+	case "expire":
+		s.Actions = append(s.Actions, Action{After: ms, Kind: "outexpire", Inst: "g0"})
+	}
+	if readFails {
+		s.Actions = append(s.Actions, Action{After: ms, Kind: "rule", Rule: &FaultRule{Client: "i0", Op: "Get", Kind: "hang", Hang: 60 * ms, Err: errk}})
+	}
+	s.Actions = append(s.Actions,
+		Action{After: ms, Kind: "validate", Inst: "i0", Val: "bg", OrDemote: orDemote},
+		Action{After: rel, Kind: "release", Break: "la"},
+		Action{After: 200 * ms, Kind: "validate", Inst: "i0", Val: "bg", OrDemote: orDemote},
+	)
+	s.Duration = 3 * h
+	s.Sample = sampleFor(h)
+	return s
+}
+
+// ---------------------------------------------------------------------------
+// sinkrace: a heartbeat tick is preempted at one of its in-library sites; meanwhile a
+// demotion that leaves the record alone (failed validation read, grace expiry) starts
+// on another goroutine and is held inside the (slow) user metrics sink, i.e. in the
+// middle of the library's demotion sequence; the tick then continues, and only then
+// the sink returns. Zero store latency: everything after the second hold happens at
+// one virtual instant (the held demotion owns the election mutex).
+// ---------------------------------------------------------------------------
+
+var srSinks = []string{"metric:leaderdur", "metric:transition:FOLLOWER", "metric:isleader:0"}
+var srPaths = []string{"ordemote", "valloop", "grace"}
+
+// SinkRaceTotal is the size of the enumeration.
+func SinkRaceTotal() int { return len(srSinks) * len(srPaths) * 3 }
+
+func genSinkRace(r rng, k int) *Spec {
+	idx := k % SinkRaceTotal()
+	sink := srSinks[idx%len(srSinks)]
+	idx /= len(srSinks)
+	path := srPaths[idx%len(srPaths)]
+	idx /= len(srPaths)
+	spin := []time.Duration{200 * time.Microsecond, 2 * ms, 10 * ms}[idx%3]
+	h := r.pickD(200*ms, 500*ms, 1*sec)
+	s := &Spec{TTL: time.Duration(r.pickI(3, 5)) * h, NoPreempt: true, Tags: []string{"sinkrace", sink, path}}
+	s.Insts = mkInsts(1+r.IntN(2), 1, h)
+	nth := 2 + r.IntN(3)
+	s.Breaks = []BreakSpec{
+		{Name: "tick", Client: "*", Op: "yield:heartbeatAfterRevLoad", Nth: nth, Phase: "site", Armed: true},
+		{Name: "sink", Client: "i0", Op: sink, Nth: 1, Phase: "sink"},
+	}
+	s.Actions = append(s.Actions, Action{At: 10 * ms, Kind: "start", Inst: "i0"})
+	if len(s.Insts) > 1 {
+		s.Actions = append(s.Actions, Action{At: h / 2, Kind: "start", Inst: "i1"})
+	}
+	s.Actions = append(s.Actions, Action{At: h/2 + ms, Kind: "waitbreak", Break: "tick", D: 30 * sec},
+		Action{Chain: true, Kind: "arm", Break: "sink"})
+	switch path {
+	case "ordemote":
+		s.Actions = append(s.Actions,
+			Action{Chain: true, Kind: "rule", Rule: &FaultRule{Client: "i0", Op: "Get", Kind: "err", Err: r.pickS("timeout", "noresponders", "io")}},
+			Action{Chain: true, Kind: "validate", Inst: "i0", Val: "bg", OrDemote: true})
+	case "valloop":
+		s.Insts[0].ValInterval = h
+		s.Actions = append(s.Actions,
+			Action{Chain: true, Kind: "rule", Rule: &FaultRule{Client: "i0", Op: "Get", Kind: "err", Err: r.pickS("timeout", "noresponders", "io")}})
+	case "grace":
+		s.Insts[0].Conn = true
+		s.Insts[0].Grace = 2 * h
+		if s.Insts[0].Grace < sec {
+			s.Insts[0].Grace = sec
+		}
+		s.Actions = append(s.Actions, Action{Chain: true, Kind: "conn", Inst: "i0", Val: "D"})
+	}
+	s.Actions = append(s.Actions,
+		Action{Chain: true, Kind: "waitbreak", Break: "sink", D: 5 * sec},
+		Action{Chain: true, Kind: "release", Break: "tick"},
+		Action{Chain: true, Kind: "spin", D: spin},
+		Action{Chain: true, Kind: "release", Break: "sink"},
+		Action{After: ms, Kind: "waitapi", Inst: "i0", D: 7 * sec},
+	)
+	s.Duration = 3 * h
+	s.Sample = sampleFor(h)
+	return s
+}
+
+// ---------------------------------------------------------------------------
+// priosucc: fault-free successions among instances with priorities 0..3 (0 = the default
+// configuration, whose record omits the priority field) and mixed takeover flags: the
+// current leader is stopped (gracefully or not), the others succeed it, the stopped
+// ones come back. Every term of a leader that has a strictly higher-priority,
+// takeover-enabled follower beside it is a promptness obligation.
+// ---------------------------------------------------------------------------
+
+// PrioSuccTotal is the size of the enumeration of priority/flag assignments.
+func PrioSuccTotal() int { return 64 * 8 }
+
+func genPrioSucc(r rng, k int) *Spec {
+	idx := (k * 37) % PrioSuccTotal()
+	h := r.pickD(200*ms, 500*ms, 1*sec)
+	s := &Spec{TTL: time.Duration(r.pickI(3, 5)) * h, Prompt: true, Tags: []string{"priority", "priosucc"}}
+	s.Insts = mkInsts(3, 1, h)
+	for i := 0; i < 3; i++ {
+		s.Insts[i].Priority = idx % 4
+		idx /= 4
+	}
+	for i := 0; i < 3; i++ {
+		s.Insts[i].Takeover = idx%2 == 1 && s.Insts[i].Priority > 0 // (takeover needs a priority > 0)
+		idx /= 2
+	}
+	s.Lat = Latency{Min: 0, Max: h / 20}
+	if r.chance(0.3) {
+		s.Lat = Latency{}
+	}
+	s.Watch = WatchPolicy{DelayMax: r.pickD(0, h/10)}
+	t := 10 * ms
+	for _, p := range r.Perm(3) {
+		s.Actions = append(s.Actions, Action{At: t, Kind: "start", Inst: s.Insts[p].Name})
+		t += r.pickD(0, h/2, 2*h)
+	}
+	t += 8 * h
+	for round := 0; round < 3; round++ {
+		var sv StopVariant
+		switch r.IntN(3) {
+		case 0:
+			sv = StopVariant{Plain: true}
+		case 1:
+			sv = StopVariant{DeleteKey: true, Wait: true, Timeout: 5 * sec}
+		default:
+			sv = StopVariant{DeleteKey: false, Timeout: 5 * sec}
+		}
+		s.Actions = append(s.Actions, Action{At: t, Kind: "stopleader", Inst: "g0", Stop: &sv})
+		t += 8*h + s.TTL
+		s.Actions = append(s.Actions, Action{At: t, Kind: "startstopped", Inst: "g0"})
+		t += 8 * h
+	}
+	s.Duration = 6 * h
+	s.Sample = sampleFor(h)
+	return s
+}
+
+// ---------------------------------------------------------------------------
+// healthleak: a (slow) health check of a term is still in flight when the term is ended
+// by something other than the health mechanism; it reports unhealthy afterwards. The
+// instance is re-elected and the new term begins with threshold-1 unhealthy ticks: the
+// stale result must not count towards the new term's threshold.
+// ---------------------------------------------------------------------------
+
+var hlEnds = []string{"ordemote", "forge", "restart", "restartctx", "outdel"}
+
+// HealthLeakTotal is the size of the enumeration.
+func HealthLeakTotal() int { return len(hlEnds) * 4 * 3 }
+
+func genHealthLeak(r rng, k int) *Spec {
+	idx := k % HealthLeakTotal()
+	end := hlEnds[idx%len(hlEnds)]
+	idx /= len(hlEnds)
+	m := 1 + idx%4 // threshold 1..4
+	idx /= 4
+	hold := []time.Duration{time.Nanosecond, 20 * ms, 150 * ms}[idx%3] // (the check's own context lasts 100 ms)
+	h := r.pickD(200*ms, 500*ms)
+	s := &Spec{TTL: 3 * h, NoPreempt: true, Tags: []string{"health", "healthleak", end}}
+	s.Insts = mkInsts(1, 1, h)
+	j := 1 + r.IntN(4)
+	slow := r.pickS("s", "s", "S")
+	s.Insts[0].Health = strings.Repeat("h", j) + slow + strings.Repeat("u", m-1) + strings.Repeat("h", 60)
+	s.Insts[0].HealthOn = true
+	s.Insts[0].MaxFail = m
+	s.Lat = Latency{Max: r.pickD(0, 2*ms)}
+	s.Breaks = []BreakSpec{{Name: "hc", Client: "i0", Op: "health:" + slow, Nth: 1, Phase: "check", Armed: true}}
+	s.Actions = append(s.Actions, Action{At: 10 * ms, Kind: "start", Inst: "i0"},
+		Action{At: 20 * ms, Kind: "waitbreak", Break: "hc", D: 30 * sec})
+	switch end {
+	case "ordemote":
+		s.Actions = append(s.Actions,
+			Action{After: time.Nanosecond, Kind: "rule", Rule: &FaultRule{Client: "i0", Op: "Get", ToOrd: 1, Kind: "err", Err: "timeout"}},
+			Action{After: time.Nanosecond, Kind: "validate", Inst: "i0", Val: "bg", OrDemote: true})
+	case "forge":
+		s.Actions = append(s.Actions, Action{After: time.Nanosecond, Kind: "output", Inst: "g0", Val: `{"id":"intruder","token":"x"}`},
+			Action{After: 3 * h, Kind: "outdel", Inst: "g0"})
+	case "restart":
+		s.Actions = append(s.Actions, Action{After: time.Nanosecond, Kind: "restart", Inst: "i0", Stop: &StopVariant{Plain: true}})
+	case "restartctx":
+		s.Actions = append(s.Actions, Action{After: time.Nanosecond, Kind: "restart", Inst: "i0", Stop: &StopVariant{DeleteKey: true, Wait: true, Timeout: 2 * sec}})
+	case "outdel":
+		s.Actions = append(s.Actions, Action{After: time.Nanosecond, Kind: "outdel", Inst: "g0"})
+	}
+	// the held check returns after the term has ended (its result is unhealthy for "s")
+	rel := Action{After: hold, Kind: "release", Break: "hc"}
+	if end == "forge" {
+		// (before the forged record is removed again)
+		s.Actions = append(s.Actions[:len(s.Actions)-1], rel, s.Actions[len(s.Actions)-1])
+	} else {
+		s.Actions = append(s.Actions, rel)
+	}
+	s.Duration = s.TTL + time.Duration(m+8)*h + 2*sec
 	s.Sample = sampleFor(h)
 	return s
 }
